@@ -12,7 +12,8 @@ Extracted from the AST of glom/*.py (current source):
     object is created once and shared by all calls;
   * methods (other than __init__) that write `self`, for classes whose instances are shared by calls:
     module-level singletons and spec classes (anything with `glomit`); `arg_val` builds a fresh
-    `_ArgValuator` per call; `bbrepr` is `recursive_repr()(…)` (reprlib's guard is keyed by thread);
+    `_ArgValuator` per call; `bbrepr` is `recursive_repr()(…)` (reprlib's guard is keyed by thread) and
+    the guard `_BBRepr.repr1` keeps on the shared instance is keyed by `(id(x), get_ident())`;
   * the dict literal `glom()` passes to `_DEFAULT_SCOPE.new_child` (key → how the value is
     built) and the one `_glom` passes to `scope.new_child`;
   * which attributes of `self` the registry methods on the evaluation path write;
@@ -341,7 +342,8 @@ def _is_key(e):
 
 
 def handler_keys(fn, P):
-    """keys subscripted or membership-tested in the `except` handler of `_glom`, in source order"""
+    """bookkeeping keys the `except` handler of `_glom` writes (`…[K] = e`, `…[K].append(…)`) or
+    tests (`K in …`), in source order.  Keys that are only read (`cur_scope[UP]`) are structure."""
     out = []
     handlers = [h for n in ast.walk(fn) if isinstance(n, ast.Try) for h in n.handlers]
     if not handlers:
@@ -349,8 +351,11 @@ def handler_keys(fn, P):
     for h in handlers:
         found = []
         for n in ast.walk(h):
-            if isinstance(n, ast.Subscript) and _is_key(n.slice):
+            if isinstance(n, ast.Subscript) and _is_key(n.slice) and isinstance(n.ctx, (ast.Store, ast.Del)):
                 found.append((n.lineno, n.col_offset, n.slice.id))
+            if (isinstance(n, ast.Call) and isinstance(n.func, ast.Attribute) and n.func.attr in MUT
+                    and isinstance(n.func.value, ast.Subscript) and _is_key(n.func.value.slice)):
+                found.append((n.lineno, n.col_offset, n.func.value.slice.id))
             if isinstance(n, ast.Compare) and _is_key(n.left) and any(isinstance(o, (ast.In, ast.NotIn)) for o in n.ops):
                 found.append((n.lineno, n.col_offset, n.left.id))
         for _, _, k in sorted(found):
@@ -493,6 +498,28 @@ def extract(ctx):
             bbrepr_def = ast.unparse(n.value)
     if not bbrepr_def:
         P.add('module-level `bbrepr = ...` not found')
+    # the hand-written recursion guard of _BBRepr.repr1 (the instance is shared by all threads): the
+    # assignment of its key and every statement that touches `self._active`, in source order
+    guard = []
+    r1 = find_def(core, 'repr1', cls='_BBRepr')
+    if r1 is not None:
+        def emit_guard(stmts):
+            for st in stmts:
+                if isinstance(st, ast.Assign) and ast.unparse(st.targets[0]) == 'key':
+                    guard.append(ast.unparse(st))
+                elif isinstance(st, ast.If):
+                    if '_active' in ast.unparse(st.test):
+                        guard.append('if ' + ast.unparse(st.test))
+                    emit_guard(st.body)
+                    emit_guard(st.orelse)
+                elif isinstance(st, ast.Try):
+                    emit_guard(st.body)
+                    for h in st.handlers:
+                        emit_guard(h.body)
+                    emit_guard(st.finalbody)
+                elif '_active' in ast.unparse(st):
+                    guard.append(ast.unparse(st))
+        emit_guard(r1.body)
     # ---- re-entry with a scope handed in
     hkeys = handler_keys(gi, P) if gi is not None else []
     plink = parent_link_keys(gi) if gi is not None else []
@@ -510,6 +537,7 @@ def extract(ctx):
         ('c20SharedObjectWrites', 'List (String × String)', obj_writes),
         ('c20ArgValFresh', 'Bool', bool(arg_val_fresh)),
         ('c20BbreprDef', 'String', bbrepr_def),
+        ('c20BbreprGuard', 'List String', guard),
         ('c20GlomScope', 'List (String × String)', glom_scope),
         ('c20GlomScopeRoot', 'String', root or ''),
         ('c20ChildScope', 'List (String × String)', child_scope),
